@@ -203,7 +203,15 @@ impl Prop for C17 {
                 let owner_of = |users: &Vec<MUser>, tok: &str, now: u64| users.iter().find(|u| u.alive && u.session.as_ref().map(|s| s.0 == tok && now < s.1).unwrap_or(false)).map(|u| u.uid.clone());
                 let pick_token = |tokens: &Vec<String>| -> String {
                     if o.garbage_token || tokens.is_empty() {
-                        "0".repeat(64)
+                        // never issued: all zeros, or a near miss of a token that was issued (its
+                        // upper-case spelling, a prefix, itself with a trailing space, the empty string)
+                        match (tokens.get(o.tok % tokens.len().max(1)), step % 5) {
+                            (Some(t), 1) if t.to_ascii_uppercase() != *t => t.to_ascii_uppercase(),
+                            (Some(t), 2) => t[..t.len().min(63)].to_string(),
+                            (Some(t), 3) => format!("{} ", t),
+                            (_, 4) => String::new(),
+                            _ => "0".repeat(64),
+                        }
                     } else {
                         tokens[o.tok % tokens.len()].clone()
                     }
@@ -369,7 +377,8 @@ impl Prop for C17 {
                         bump("c17.route_requests");
                         let tok = pick_token(&tokens);
                         let with_cookie = !(o.garbage_token && o.tok % 2 == 0);
-                        let want = if with_cookie { owner_of(&users, &tok, now) } else { None };
+                        // (a cookie value is trimmed by the HTTP layer: surrounding whitespace is not part of it)
+                        let want = if with_cookie { owner_of(&users, tok.trim(), now) } else { None };
                         let mut headers = vec![("Host".to_string(), "sim.test".to_string())];
                         if with_cookie {
                             headers.push(("Cookie".into(), format!("other=1; HumphreyToken={}", tok)));
@@ -385,7 +394,7 @@ impl Prop for C17 {
                             Err(_) => None,
                         };
                         // the request is served at (almost) the same virtual instant; re-evaluate the model at now+1 too
-                        let want_later = if with_cookie { owner_of(&users, &tok, now_secs()) } else { None };
+                        let want_later = if with_cookie { owner_of(&users, tok.trim(), now_secs()) } else { None };
                         let ok = match (&got, &want, &want_later) {
                             (Some((200, uid)), Some(w), _) if uid == w => true,
                             (Some((200, uid)), _, Some(w)) if uid == w => true,
